@@ -294,7 +294,7 @@ ETYPES = {
     # here are the WIRE names the property prescribes (un-rawed); C05 only
     "raw": ("E_raw", "org.example.Raw",
             [("Typed", [("type", "str"), ("count", "u32")]), ("Matched", [("match", "i32"), ("ref", "obstr")]),
-             ("Loop", None), ("Renamed", [("in", "bool")])]),
+             ("Loop", None), ("Renamed", [("in", "bool")]), ("Hollow", None)]),
 }
 # what the derive uses as of fe0c0b5 for the un-renamed raw-identifier fields (open finding)
 RAW_ASIS = {"type": "r#type", "ref": "r#ref"}
